@@ -75,3 +75,256 @@ Proof.
   all: try (match goal with |- context [Nat.eqb ?a ?b] => destruct (Nat.eqb a b); cbn; try reflexivity end).
   all: match goal with |- context [tb_eqb ?a ?b] => destruct (tb_eqb a b); reflexivity end.
 Qed.
+
+(* ------------------------------------------------------------------ basic facts about the state *)
+
+Lemma frame_eqb_refl : forall f, frame_eqb f f = true.
+Proof. destruct f as [l|f k| | | | | | | | |]; cbn; try reflexivity; [apply N.eqb_refl|destruct f, k; reflexivity]. Qed.
+Lemma tb_eqb_refl : forall t, tb_eqb t t = true.
+Proof. induction t as [|f t IH]; cbn; [reflexivity|]. rewrite frame_eqb_refl, IH. reflexivity. Qed.
+Lemma hfn_eqb_eq : forall a b, hfn_eqb a b = true -> a = b.
+Proof. destruct a, b; cbn; congruence. Qed.
+Lemma rkind_eqb_eq : forall a b, rkind_eqb a b = true -> a = b.
+Proof. destruct a, b; cbn; congruence. Qed.
+Lemma frame_eqb_eq : forall a b, frame_eqb a b = true -> a = b.
+Proof.
+  destruct a, b; cbn; try congruence.
+  - intro H. apply N.eqb_eq in H. congruence.
+  - intro H. apply andb_true_iff in H. destruct H as [H1 H2].
+    apply hfn_eqb_eq in H1. apply rkind_eqb_eq in H2. congruence.
+Qed.
+Lemma tb_eqb_eq : forall a b, tb_eqb a b = true -> a = b.
+Proof.
+  induction a as [|x a IH]; destruct b as [|y b]; cbn; try congruence.
+  intro H. apply andb_true_iff in H. destruct H as [H1 H2].
+  apply frame_eqb_eq in H1. apply IH in H2. congruence.
+Qed.
+
+(* everything that existed keeps its class, origin and cause; objects are only added; the stack of
+   handled exceptions is the same *)
+Definition stable (st st' : state) : Prop :=
+  next st <= next st' /\ hstack st' = hstack st /\
+  forall o, o < next st ->
+    ecls (heap st' o) = ecls (heap st o) /\ eorg (heap st' o) = eorg (heap st o) /\ ecause (heap st' o) = ecause (heap st o).
+
+Lemma stable_refl : forall st, stable st st.
+Proof. intro st. repeat split; auto. Qed.
+Lemma stable_trans : forall a b c, stable a b -> stable b c -> stable a c.
+Proof.
+  intros a b c [N1 [H1 O1]] [N2 [H2 O2]]. split; [lia|]. split; [congruence|].
+  intros o Ho. destruct (O1 o Ho) as [A1 [B1 C1]]. destruct (O2 o ltac:(lia)) as [A2 [B2 C2]].
+  repeat split; congruence.
+Qed.
+
+Lemma upd_same : forall h i o, upd h i o i = o.
+Proof. intros. unfold upd. rewrite Nat.eqb_refl. reflexivity. Qed.
+Lemma upd_other : forall h i o j, j <> i -> upd h i o j = h j.
+Proof. intros h i o j H. unfold upd. apply Nat.eqb_neq in H. rewrite H. reflexivity. Qed.
+
+Lemma set_tb_stable : forall i t st, stable st (set_tb i t st).
+Proof.
+  intros i t st. split; [cbn; lia|]. split; [reflexivity|].
+  intros o _. cbn. unfold upd. destruct (Nat.eqb o i) eqn:E; [apply Nat.eqb_eq in E; subst; cbn; auto|auto].
+Qed.
+Lemma add_frame_stable : forall f i st, stable st (add_frame f i st).
+Proof. intros. apply set_tb_stable. Qed.
+Lemma alloc_stable : forall o st, stable st (fst (alloc o st)).
+Proof.
+  intros o st. split; [cbn; lia|]. split; [reflexivity|].
+  intros j Hj. cbn. rewrite upd_other by lia. auto.
+Qed.
+Lemma add_log_stable : forall e st, stable st (add_log e st).
+Proof. intros. repeat split; auto. Qed.
+Lemma count_remove_stable : forall st, stable st (count_remove st).
+Proof. intros. repeat split; auto. Qed.
+
+Lemma tb_of_set_tb : forall i t st, tb_of (set_tb i t st) i = t.
+Proof. intros. unfold tb_of, set_tb. cbn. rewrite upd_same. reflexivity. Qed.
+Lemma tb_of_add_frame : forall f i st, tb_of (add_frame f i st) i = f :: tb_of st i.
+Proof. intros. unfold add_frame. apply tb_of_set_tb. Qed.
+Lemma tb_of_add_frame_other : forall f i j st, j <> i -> tb_of (add_frame f i st) j = tb_of st j.
+Proof. intros. unfold add_frame, tb_of, set_tb. cbn. rewrite upd_other by assumption. reflexivity. Qed.
+
+Lemma raise_value_stable : forall fn i t st, stable st (raise_value fn i t st).
+Proof.
+  intros. unfold raise_value. destruct (tb_eqb _ _).
+  - apply add_frame_stable.
+  - eapply stable_trans; [apply set_tb_stable|apply add_frame_stable].
+Qed.
+(* raising the value with the saved traceback: afterwards its traceback is the saved one plus the raising frame *)
+Lemma raise_value_tb : forall fn i t st,
+  exists k, (k = KVal \/ k = KWtb) /\ tb_of (raise_value fn i t st) i = FHelper fn k :: t.
+Proof.
+  intros. unfold raise_value. destruct (tb_eqb (tb_of st i) t) eqn:E.
+  - apply tb_eqb_eq in E. exists KVal. split; [auto|]. rewrite tb_of_add_frame. congruence.
+  - exists KWtb. split; [auto|]. rewrite tb_of_add_frame, tb_of_set_tb. reflexivity.
+Qed.
+Lemma raise_value_logs : forall fn i t st, logs (raise_value fn i t st) = logs st.
+Proof. intros. unfold raise_value. destruct (tb_eqb _ _); reflexivity. Qed.
+
+Lemma force_hand_stable : forall s st s' st' i, force_hand s st = (s', st', i) -> stable st st'.
+Proof.
+  intros s st s' st' i H. unfold force_hand in H.
+  destruct (value s) as [v|].
+  - inversion H; subst. apply raise_value_stable.
+  - destruct (type_ s) as [c|].
+    + destruct (ctor0 c).
+      * inversion H; subst. eapply stable_trans; [apply (alloc_stable (mkobj c [] ONew None))|apply raise_value_stable].
+      * inversion H; subst. apply (alloc_stable (mkobj cls_type [FHelper FnForce KCtor] ONew None)).
+    + inversion H; subst. apply (alloc_stable (mkobj cls_runtime [FHelper FnForce KRt] ONew None)).
+Qed.
+
+Lemma capture_hand_stable : forall chk s st s' st' r, capture_hand chk s st = (s', st', r) -> stable st st'.
+Proof.
+  intros chk s st s' st' r H. unfold capture_hand in H.
+  destruct (hstack st) as [|i rest].
+  - destruct chk; inversion H; subst; [apply (alloc_stable (mkobj cls_runtime [FHelper FnCapture KRt] ONew None))|apply stable_refl].
+  - inversion H; subst. apply stable_refl.
+Qed.
+
+Lemma exit_hand_stable : forall wf s st out s' st' out', exit_hand wf s st out = (s', st', out') -> stable st st'.
+Proof.
+  intros wf s st out s' st' out' H. unfold exit_hand in H. destruct out as [|i].
+  - destruct (reraise s).
+    + destruct (force_hand s st) as [[s1 st1] j] eqn:F. inversion H; subst.
+      eapply stable_trans; [eapply force_hand_stable; eassumption|].
+      eapply stable_trans; apply add_frame_stable.
+    + inversion H; subst. apply stable_refl.
+  - destruct (reraise s); inversion H; subst; [apply add_log_stable|apply stable_refl].
+Qed.
+
+Lemma filt_exit_hand_stable : forall p wf st out st' out', filt_exit_hand p wf st out = (st', out') -> stable st st'.
+Proof.
+  intros p wf st out st' out' H. unfold filt_exit_hand in H. destruct out as [|i].
+  - inversion H; subst. apply stable_refl.
+  - destruct (pv p _); inversion H; subst; try apply stable_refl.
+    eapply stable_trans; [apply (alloc_stable (pred_exc p FnFiltExit))|apply add_frame_stable].
+Qed.
+
+Lemma filt_call_hand_stable : forall p x st st' r, filt_call_hand p x st = (st', r) -> stable st st'.
+Proof.
+  intros p x st st' r H. unfold filt_call_hand in H.
+  destruct (pv p _).
+  - destruct (opt_nat_eqb _ _).
+    + destruct (hd_error (hstack st)); inversion H; subst;
+        [apply raise_value_stable|apply (alloc_stable (mkobj cls_type [FHelper FnFiltCall KCtor] ONew None))].
+    + destruct x; inversion H; subst;
+        [apply add_frame_stable|apply (alloc_stable (mkobj cls_type [FHelper FnFiltCall KVal] ONew None))].
+  - inversion H; subst. apply stable_refl.
+  - inversion H; subst. apply (alloc_stable (pred_exc p FnFiltCall)).
+Qed.
+
+(* ------------------------------------------------------------------ entering / leaving the with statement *)
+
+Lemma sare_enter_active : forall wf r0 lab st o rest,
+  hstack st = o :: rest ->
+  sare_enter wf (sare_new r0 lab st) st = (mksare r0 (Some (cls_of st o)) (Some o) (tb_of st o) lab, st, Normal).
+Proof.
+  intros wf r0 lab st o rest H. unfold sare_enter. rewrite capture_equiv, sare_init_equiv.
+  unfold capture_hand. rewrite H. reflexivity.
+Qed.
+
+Lemma sare_enter_stable : forall wf s st s' st' out, sare_enter wf s st = (s', st', out) -> stable st st'.
+Proof.
+  intros wf s st s' st' out H. unfold sare_enter in H. rewrite capture_equiv in H.
+  destruct (capture_hand gen_enter_check s st) as [[s1 st1] r] eqn:C.
+  apply capture_hand_stable in C. destruct r as [j|]; inversion H; subst.
+  - eapply stable_trans; [eassumption|]. eapply stable_trans; apply add_frame_stable.
+  - assumption.
+Qed.
+
+Lemma with_sare_stable : forall r0 lab wf block st s3 st3 ob out,
+  (forall s st s' st' o, block s st = (s', st', o) -> stable st st') ->
+  with_sare r0 lab wf block st = (s3, st3, ob, out) -> stable st st3.
+Proof.
+  intros r0 lab wf block st s3 st3 ob out HB H. unfold with_sare in H.
+  destruct (sare_enter wf (sare_new r0 lab st) st) as [[s1 st1] o1] eqn:E.
+  apply sare_enter_stable in E. destruct o1 as [|j].
+  - destruct (block s1 st1) as [[s2 st2] o2] eqn:B. apply HB in B.
+    rewrite exit_equiv in H.
+    destruct (exit_hand wf s2 st2 o2) as [[s4 st4] o4] eqn:X. apply exit_hand_stable in X.
+    inversion H; subst. eapply stable_trans; [eassumption|]. eapply stable_trans; eassumption.
+  - inversion H; subst. assumption.
+Qed.
+
+Lemma stable_push : forall i a b, stable (push i a) b -> stable a (pop b).
+Proof.
+  intros i a b [N [H O]]. split; [exact N|]. split; [cbn in *; rewrite H; reflexivity|exact O].
+Qed.
+
+(* the modelled interpreter never changes the class / origin of an existing object, never forgets one,
+   and leaves the stack of handled exceptions as it found it — for every body (induction, no bound) *)
+Lemma exec_stable : forall b s st s' st' out, exec b s st = (s', st', out) -> stable st st'.
+Proof.
+  induction b as [|c k|c k l|v|a IHa b IHb|a IHa h IHh|r0 l b IHb|r0 b IHb|l|l|p l b IHb|p a l];
+    intros s st s' st' out H; cbn [exec] in H.
+  - inversion H; subst. apply stable_refl.
+  - inversion H; subst. apply (alloc_stable (mkobj c (FProg 1 :: FOrig :: pre_tb k) (OSite 0) None)).
+  - inversion H; subst. apply (alloc_stable (mkobj c (FProg l :: pre_tb k) (OSite l) None)).
+  - inversion H; subst. apply stable_refl.
+  - destruct (exec a s st) as [[s1 st1] o1] eqn:A. apply IHa in A. destruct o1.
+    + apply IHb in H. eapply stable_trans; eassumption.
+    + inversion H; subst. assumption.
+  - destruct (exec a s st) as [[s1 st1] o1] eqn:A. apply IHa in A. destruct o1 as [|i].
+    + inversion H; subst. assumption.
+    + destruct (exec h s1 (push i st1)) as [[s2 st2] o2] eqn:B. apply IHh in B.
+      inversion H; subst. eapply stable_trans; [eassumption|]. eapply stable_push; eassumption.
+  - destruct (with_sare r0 l (FProg l) (fun s' st' => exec b s' st') st) as [[[s3 st3] ob] o3] eqn:W.
+    inversion H; subst. eapply with_sare_stable; [|eassumption].
+    intros; eapply IHb; eassumption.
+  - destruct (exec b (sare_new r0 2 st) st) as [[s1 st1] o1] eqn:B. inversion H; subst. eapply IHb; eassumption.
+  - rewrite do_force_equiv in H. destruct (force_hand s st) as [[s1 st1] i] eqn:F.
+    inversion H; subst. eapply stable_trans; [eapply force_hand_stable; eassumption|apply add_frame_stable].
+  - unfold do_capture_stmt in H. rewrite capture_equiv in H.
+    destruct (capture_hand gen_capture_default_check s st) as [[s1 st1] r] eqn:C. apply capture_hand_stable in C.
+    destruct r; inversion H; subst; [eapply stable_trans; [eassumption|apply add_frame_stable]|assumption].
+  - destruct (exec b s st) as [[s1 st1] o1] eqn:B. apply IHb in B.
+    rewrite filt_exit_equiv in H.
+    destruct (filt_exit_hand p (FProg l) st1 o1) as [st2 o2] eqn:X. apply filt_exit_hand_stable in X.
+    inversion H; subst. eapply stable_trans; eassumption.
+  - assert (A : exists st1 x, stable st st1 /\
+        match do_filt_call p x s st1 with
+        | (st2, Some j) => (s, add_frame (FProg l) j st2, Raised j)
+        | (st2, None) => (s, st2, Normal)
+        end = (s', st', out)).
+    { destruct a as [|c m| |i].
+      - exists st, (hd_error (hstack st)). split; [apply stable_refl|exact H].
+      - exists (fst (alloc (mkobj c [] (OSite m) None) st)), (Some (next st)).
+        split; [apply alloc_stable|exact H].
+      - exists st, None. split; [apply stable_refl|exact H].
+      - exists st, (Some i). split; [apply stable_refl|exact H]. }
+    destruct A as [st1 [x [S1 A]]]. rewrite filt_call_equiv in A.
+    destruct (filt_call_hand p x st1) as [st2 r] eqn:F. apply filt_call_hand_stable in F.
+    destruct r; inversion A; subst.
+    + eapply stable_trans; [eassumption|]. eapply stable_trans; [eassumption|apply add_frame_stable].
+    + eapply stable_trans; eassumption.
+Qed.
+
+(* a body that does not call force_reraise()/capture() on its own context leaves what the context
+   captured untouched (only the reraise flag can change) — induction on the body, no bound *)
+Lemma exec_keeps_capture : forall b s st s' st' out,
+  direct_free0 b = true -> exec b s st = (s', st', out) ->
+  type_ s' = type_ s /\ value s' = value s /\ tb s' = tb s /\ slab s' = slab s.
+Proof.
+  induction b as [|c k|c k l|v|a IHa b IHb|a IHa h IHh|r0 l b IHb|r0 b IHb|l|l|p l b IHb|p a l];
+    intros s st s' st' out D H; cbn [exec] in H; cbn [direct_free0] in D; try discriminate.
+  - inversion H; subst. auto.
+  - inversion H; subst. auto.
+  - inversion H; subst. auto.
+  - inversion H; subst. auto.
+  - apply andb_true_iff in D. destruct D as [Da Db].
+    destruct (exec a s st) as [[s1 st1] o1] eqn:A. apply (IHa _ _ _ _ _ Da) in A. destruct o1.
+    + apply (IHb _ _ _ _ _ Db) in H. intuition congruence.
+    + inversion H; subst. assumption.
+  - apply andb_true_iff in D. destruct D as [Da Dh].
+    destruct (exec a s st) as [[s1 st1] o1] eqn:A. apply (IHa _ _ _ _ _ Da) in A. destruct o1 as [|i].
+    + inversion H; subst. assumption.
+    + destruct (exec h s1 (push i st1)) as [[s2 st2] o2] eqn:B. apply (IHh _ _ _ _ _ Dh) in B.
+      inversion H; subst. intuition congruence.
+  - destruct (with_sare _ _ _ _ _) as [[[s3 st3] ob] o3]. inversion H; subst. auto.
+  - destruct (exec b _ _) as [[s1 st1] o1]. inversion H; subst. auto.
+  - destruct (exec b s st) as [[s1 st1] o1] eqn:B. apply (IHb _ _ _ _ _ D) in B.
+    destruct (with_exit _ _ _ _ _ _ _) as [[s2 st2] o2]. inversion H; subst. assumption.
+  - destruct (match a with ACur => _ | ANew c m => _ | ANone => _ | AObj i => _ end) as [st1 x].
+    destruct (do_filt_call p x s st1) as [st2 [j|]]; inversion H; subst; auto.
+Qed.
